@@ -169,6 +169,30 @@ Qed.
 Lemma facts_reset : reset_when_absent_or_done = true /\ reset_clears_then_waits = true /\ watch_first_completed = true.
 Proof. repeat split. Qed.
 
+Lemma local_step_eq vals op w :
+  local_step vals op w =
+  if negb (active (w_pc w)) then w else
+  match op with
+  | LWaitRun p => mkW (w_pc w) (w_slow w) (upd_nth p wait_run (w_slots w)) (w_sent w)
+  | LCompl =>
+    if pc_eqb (w_pc w) PWaiting && wait_returns (w_slots w)
+    then mkW PWaking (w_slow w) (w_slots w) (w_sent w) else w
+  | LRunW =>
+    if pc_eqb (w_pc w) PWaking then
+      let sls := map (reset_slot vals) (w_slots w) in
+      mkW (if w_slow w then PSending else PWaiting) (w_slow w) sls (cur_status vals sls :: w_sent w)
+    else w
+  | LSendDone =>
+    if pc_eqb (w_pc w) PSending then mkW PWaiting (w_slow w) (w_slots w) (w_sent w) else w
+  | LSetSlow b => mkW (w_pc w) b (w_slots w) (w_sent w)
+  | LCancel => mkW PEnded (w_slow w) (map cancel_slot (w_slots w)) (w_sent w)
+  end.
+Proof.
+  unfold local_step. change watch_segment_atomic with true.
+  destruct (negb (active (w_pc w))); [reflexivity|]. destruct op; try reflexivity.
+  rewrite andb_true_r. reflexivity.
+Qed.
+
 Lemma reset_slot_eq vals sl :
   reset_slot vals sl =
   if wait_done (sl_wait sl) then mkSlot (sl_check sl) false WNew (val_of vals (sl_check sl))
@@ -191,7 +215,7 @@ Qed.
 
 Lemma local_step_ok vals op w : watcher_ok vals w -> watcher_ok vals (local_step vals op w).
 Proof.
-  intro Hw. unfold local_step. destruct (active (w_pc w)) eqn:Ha; cbn [negb]; [|exact Hw].
+  intro Hw. rewrite local_step_eq. destruct (active (w_pc w)) eqn:Ha; cbn [negb]; [|exact Hw].
   destruct (Hw Ha) as [Hs [Hh Hk]].
   destruct op as [p| | | |b|].
   - (* LWaitRun *) intros _. cbn [w_pc w_slots w_sent]. split; [|split].
@@ -299,7 +323,7 @@ Lemma local_step_sent vals op w :
   w_sent (local_step vals op w) = w_sent w \/
   w_sent (local_step vals op w) = cur_status vals (w_slots (local_step vals op w)) :: w_sent w.
 Proof.
-  unfold local_step. destruct (active (w_pc w)); cbn [negb]; [|left; reflexivity].
+  rewrite !local_step_eq. destruct (active (w_pc w)); cbn [negb]; [|left; reflexivity].
   destruct op as [p| | | |b|]; try (left; reflexivity).
   - destruct (pc_eqb (w_pc w) PWaiting && wait_returns (w_slots w)); left; reflexivity.
   - destruct (pc_eqb (w_pc w) PWaking); [right; reflexivity | left; reflexivity].
@@ -395,7 +419,7 @@ Lemma local_step_decreases vals op w :
 Proof.
   intros Hw He. unfold lenabled in He. apply andb_true_iff in He. destruct He as [Ha He].
   destruct (Hw Ha) as [_ [_ Hk]].
-  unfold local_step, w_mu. rewrite Ha. cbn [negb].
+  rewrite local_step_eq. unfold w_mu. rewrite Ha. cbn [negb].
   destruct op as [p| | | |b|]; try discriminate.
   - cbn [w_pc w_slots]. rewrite Ha. destruct (nth_error (w_slots w) p) as [sl|] eqn:N; [|discriminate].
     pose proof (slots_mu_upd_wait_run p (w_slots w) sl N He). lia.
@@ -436,7 +460,7 @@ Lemma local_step_disabled vals op w :
   match op with LSetSlow _ | LCancel => False | _ => True end ->
   lenabled op w = false -> local_step vals op w = w.
 Proof.
-  intros Hop He. unfold lenabled in He. unfold local_step.
+  intros Hop He. unfold lenabled in He. rewrite local_step_eq.
   destruct (active (w_pc w)) eqn:Ha; cbn [negb andb] in *; [|reflexivity].
   destruct op as [p| | | |b|]; try contradiction.
   - destruct w as [pc slow sls sent]. cbn [w_pc w_slow w_slots w_sent] in *. f_equal.
